@@ -36,7 +36,7 @@ def task_json(t):
     d = {"name": t["name"], "operation": "op-" + t["name"], "clients": t["clients"]}
     for k_case, k_json in (("warmup_iterations", "warmup-iterations"), ("iterations", "iterations"), ("warmup_time_period", "warmup-time-period"),
                            ("time_period", "time-period"), ("target_throughput", "target-throughput"), ("target_interval", "target-interval"),
-                           ("schedule", "schedule"), ("tags", "tags")):
+                           ("schedule", "schedule"), ("tags", "tags"), ("ignore_response_error_level", "ignore-response-error-level")):
         if t.get(k_case) is not None:
             d[k_json] = t[k_case]
     return d
@@ -198,7 +198,23 @@ def run_race(case, scratch, extra_args=(), faults=None, instrument=None):
 
     system = simactor.SimActorSystem(k)
     patch(rally_actor, "bootstrap_actor_system", lambda *a, **kw: system)
-    patch(rally_actor, "actor_system_already_running", lambda *a, **kw: True)
+    own = case.get("own_actor_system")  # None: join a running system (nothing to shut down) | "clean" | "hangs": rally starts and shuts down its own
+    if own is None:
+        patch(rally_actor, "actor_system_already_running", lambda *a, **kw: True)
+    else:
+        state = {"down": False}
+        orig_shutdown = system.shutdown
+
+        def shutdown():
+            state["down"] = True
+            try:
+                return orig_shutdown()
+            except simactor.Budget:
+                pass
+
+        system.shutdown = shutdown
+        # not running before rally starts it; after shutdown() it is either gone or - a hung load generator - still answering for good
+        patch(rally_actor, "actor_system_already_running", lambda *a, **kw: state["down"] and own == "hangs")
     patch(rally.process, "find_all_other_rally_processes", lambda: [])
     patch(rally, "time", k.time_shim)
     patch(net, "resolve", lambda h: h)
